@@ -14,7 +14,7 @@ LEVEL = 'model_checking'
 ENGINE = 'E2'
 TECHNIQUE = ('explicit-state breadth-first search over decode histories on the real decoder: a state is the canonical '
              'fingerprint of every module-level mutable object of the repository\'s packages (parser caches, registries, class '
-             'attributes, mutable defaults, functools caches, loaded plug-in modules), a transition decodes one PEL of a 16-PEL '
+             'attributes, mutable defaults, functools caches, loaded plug-in modules), a transition decodes one PEL of a 24-PEL '
              'x {plug-ins on, off} event alphabet; each state is rebuilt by restoring the pristine module state (verified by '
              'fingerprint and against a separate interpreter) and replaying its shortest history; every transition\'s document is compared with the fresh-interpreter document; all event sequences '
              'of length 2 (thorough 3) additionally run without state merging')
@@ -26,7 +26,7 @@ LEVEL_TEXT = ('History independence is a reachability question over the decoder\
               'modes (-a, -a -r, -l) are compared with per-file decodes.')
 LEVEL_NOTE = ('depth bound 3 (quick) / 5 (thorough) beyond which only fingerprint-distinct states are extended; state kept '
               'outside the repository\'s modules (e.g. in the interpreter) is covered only by the un-merged depth-2 pass')
-RULE = ('events = 16 PELs (built-in JSON, fixture parser ok / raising / ImportError in call / None / absent module, callouts '
+RULE = ('events = 24 PELs (built-in JSON, fixture parser ok / raising / ImportError in call / None / absent module, callouts '
         'module ok / raising, SRC parser ok / raising, two-target LP, PEL truncated mid-SRC / mid-LP, BMC PEL with shipped '
         'parsers, I/O-drawer PEL, hw-diags PEL) x plug-ins {on, off}; BFS over fingerprints from each first event; plus all '
         'event sequences of length 2 (thorough 3) without merging; plus 3 directory runs. Non-trivial: a transition taken from a non-initial '
@@ -83,6 +83,19 @@ def pel_specs():
     specs['iodrawer'] = {'creator': 'M', 'eid': 0x50000010, 'sections': [
         {'t': 'UD', 'comp': 0x2C00, 'sub': 73, 'ver': 1, 'payload': '8ADF0F19010000DE'},
         {'t': 'UD', 'comp': 0x2C00, 'sub': 72, 'ver': 9, 'payload': '0102'}]}
+    # pairs that share one component of a parser-cache key but differ in another (creator vs component vs code type)
+    specs['o_bc_e5'] = {'creator': 'O', 'eid': 0x50000011, 'sections': [{'t': 'PS', 'ascii': 'BC8AE510'.ljust(32)}]}
+    specs['o_bd_2a'] = {'creator': 'O', 'eid': 0x50000012, 'sections': [{'t': 'PS', 'ascii': 'BD2A1234'.ljust(32)}]}
+    specs['o_bc_2a'] = {'creator': 'O', 'eid': 0x50000013, 'sections': [{'t': 'PS', 'ascii': 'BC2A1234'.ljust(32)}]}
+    specs['o_ud_2c00'] = {'creator': 'O', 'eid': 0x50000014, 'sections': [
+        {'t': 'UD', 'comp': 0x2C00, 'sub': 72, 'ver': 1, 'payload': '0102030405'},
+        {'t': 'ED', 'creator': 'M', 'comp': 0x2C00, 'sub': 72, 'ver': 1, 'payload': '0102030405'}]}
+    specs['x_ud_1111'] = {'creator': 'x', 'eid': 0x50000015, 'sections': [
+        dict(_ud(0, 0xE1)), {'t': 'ED', 'creator': 'B', 'comp': 0x1111, 'sub': 1, 'ver': 1, 'payload': '00e2e2e2'},
+        {'t': 'PS', 'ascii': 'B7004444'.ljust(32), 'callouts': [_proc('OKPROC9')]}]}
+    specs['b_ud_e500'] = {'creator': 'B', 'eid': 0x50000016, 'sections': [
+        {'t': 'UD', 'comp': 0xE500, 'sub': 1, 'payload': ((1).to_bytes(4, 'big') + bytes(range(12))).hex()},
+        {'t': 'UD', 'comp': 0x2000, 'sub': 1, 'payload': pelgen.json_payload({'k': 'not builtin for B'})}]}
     raw = collections.OrderedDict()
     for k, s in specs.items():
         raw[k] = pelgen.encode_pel(pelgen.pel_from_spec(s))
